@@ -30,6 +30,10 @@ fn alphabet() -> Vec<Operation> {
             v.push(Operation::Update { uuid: u(t), property: p.into(), old_value: None, value: Some(format!("n-{t}-{p}")), timestamp: ts(7) });
             v.push(Operation::Update { uuid: u(t), property: p.into(), old_value: Some("stale".into()), value: None, timestamp: ts(8) });
         }
+        // recorded old value equal to the new value although the stored value may differ (a stale
+        // handle): the recorded old value is for undo only and must not influence the effect
+        v.push(Operation::Update { uuid: u(t), property: "p1".into(), old_value: Some(format!("same-{t}")), value: Some(format!("same-{t}")), timestamp: ts(9) });
+        v.push(Operation::Update { uuid: u(t), property: "p1".into(), old_value: None, value: None, timestamp: ts(10) });
     }
     v
 }
@@ -289,9 +293,20 @@ pub fn run(ctx: &Ctx) -> Outcome {
                 let mut batch = Operations::new();
                 for _ in 0..len {
                     let mut op = alpha[rng.below(alpha.len())].clone();
-                    if let Operation::Update { value: Some(v), timestamp, .. } = &mut op {
+                    if let Operation::Update { value: Some(v), timestamp, old_value, .. } = &mut op {
                         *v = format!("r{}-{}", round, rng.below(1000));
                         *timestamp = ts(rng.range(-5, 50));
+                        // the recorded old value is whatever the caller believed: right, absent, or
+                        // equal to the new value
+                        match rng.below(4) {
+                            0 => *old_value = Some(v.clone()),
+                            1 => *old_value = Some("believed".into()),
+                            _ => {}
+                        }
+                    } else if let Operation::Update { value: None, old_value, .. } = &mut op {
+                        if rng.chance(1, 3) {
+                            *old_value = None;
+                        }
                     }
                     if rng.chance(1, 6) {
                         // status changes: a task that becomes pending / recurring also enters
@@ -327,7 +342,7 @@ pub fn run(ctx: &Ctx) -> Outcome {
     }
     Outcome {
         level: "exploration",
-        rule: "every batch of <=3 operations over {create, delete, set/remove of 2 properties, undo point} x 2 tasks on 4 prior states (empty, one task, two tasks with undo point, synced base + pending) on in-memory storage (SQLite: sampled in quick, full in thorough) + seeded random batches up to 30 operations (incl. status changes that move tasks into the working set) with interleaved syncs; error injected at every storage call of a commit (every 5th case in quick); non-trivial = batch contains an operation invalid in its state or >=2 create/delete operations; distinct by (prior state, batch)".into(),
+        rule: "every batch of <=3 operations over {create, delete, set/remove of 2 properties (recorded old values right, stale, or equal to the new value), undo point} x 2 tasks on 4 prior states (empty, one task, two tasks with undo point, synced base + pending) on in-memory storage (SQLite: sampled in quick, full in thorough) + seeded random batches up to 30 operations (incl. status changes that move tasks into the working set) with interleaved syncs; error injected at every storage call of a commit (every 5th case in quick); non-trivial = batch contains an operation invalid in its state or >=2 create/delete operations; distinct by (prior state, batch)".into(),
         exhaustive: None,
         acc,
         assumptions: vec![
